@@ -58,10 +58,13 @@ class SimClock:
         self.now = self.EPOCH
         self.tick = 0.001  # every read advances (monotone, distinct timestamps)
         self.frozen = False  # fault: clock stands still
+        self.quantum = 0.0  # coarse clock: reads within one quantum return the same instant
 
     def time(self) -> float:
         if not self.frozen:
             self.now += self.tick
+        if self.quantum:
+            return self.EPOCH + int((self.now - self.EPOCH) / self.quantum) * self.quantum
         return self.now
 
     def advance(self, dt: float) -> None:
